@@ -1249,7 +1249,7 @@ func (p *Prog) indexTimeSeed() []Ob {
 			if !ok || phi.Block() != cl.header {
 				continue
 			}
-			ob := Ob{Rule: "R11", Inst: "L6:" + funcLabel(cl.fn) + ":index-time-seed", Props: []string{"C11"}, Pos: p.at(it), Func: funcLabel(cl.fn), Nontrivial: true}
+			ob := Ob{Rule: "R11", Inst: "L6:" + funcLabel(cl.fn) + ":index-time-seed", Props: []string{"C11", "C07"}, Pos: p.at(it), Func: funcLabel(cl.fn), Nontrivial: true}
 			okSeed := true
 			seed := ""
 			for i, e := range phi.Edges {
